@@ -483,20 +483,12 @@ func (ex *Executor) applyContract(st *State, fr *Frame, spec *FuncSpec, fn *ssa.
 			st.heap[hn] = Store(st.heapGet(hn, arrayOf(srt)), idx, Fresh("mod", srt))
 		}
 	} else if fn != nil && funcKey(fn) != "" {
-		w := ex.writtenIn(fn)
-		if w["*"] {
-			for _, n := range st.heapNames() {
-				st.havocHeap(n)
-			}
-		} else {
-			for n := range w {
-				st.havocHeap(n)
-			}
-		}
+		st.havocNames(ex.writtenIn(fn))
 	}
 	na := Fresh("alloc", SInt)
 	st.assume(Ge(na, st.alloc))
 	st.alloc = na
+	st.rebirth(old)
 	// results
 	var res []Val
 	if spec.Pure {
@@ -878,9 +870,7 @@ func (ex *Executor) callWrites(cc *ssa.CallCommon, w map[string]bool) {
 	if b, ok := cc.Value.(*ssa.Builtin); ok {
 		switch b.Name() {
 		case "append", "copy":
-			w["E.Int"] = true
-			w["E.Int.u8"] = true
-			w["E.Bool"] = true
+			w["E.*"] = true
 		case "delete":
 			w["M.dom"] = true
 		}
